@@ -18,13 +18,19 @@ import (
 const supiX = "imsi-208930000000099" // never created, no account
 
 type apiInfo struct {
-	Sess []*Sess          `json:"sess"`
-	Bal  map[string]int64 `json:"bal"`
+	Sess   []*Sess          `json:"sess"`
+	Bal    map[string]int64 `json:"bal"`
+	Events int              `json:"events"` // accepted one-time events so far
 }
 
 func apiState(w *World, h *HistRun) (string, any) {
 	k, info := acctState(w, h)
 	ai := apiInfo{Sess: h.Sess, Bal: info.(AcctInfo).Bal}
+	for _, stp := range h.Steps {
+		if stp.Op.K == "create" && stp.Op.OTE != "" && stp.Resp.Code == 201 {
+			ai.Events++
+		}
+	}
 	var st []string
 	for _, se := range h.Sess {
 		if !se.Live {
@@ -48,7 +54,7 @@ func apiState(w *World, h *HistRun) (string, any) {
 	for _, supi := range sortedKeys(ghost) {
 		gs = append(gs, supi[len(supi)-2:]+"=>"+ghost[supi])
 	}
-	return k + "|" + strings.Join(st, ",") + "|" + strings.Join(nu, ",") + "|" + strings.Join(gs, ","), ai
+	return k + "|" + strings.Join(st, ",") + "|" + strings.Join(nu, ",") + "|" + strings.Join(gs, ",") + fmt.Sprintf("|ev%d", ai.Events), ai
 }
 
 // effectView: the parts of the state a rejected request must leave alone
@@ -93,6 +99,11 @@ func c12Step(w *World, h *HistRun, i int) (fs []Finding) {
 		}
 		if len(st.Notes) > 0 {
 			fs = append(fs, Finding{"rejected-request-notifies/" + intent, fmt.Sprintf("step %d %s (%s) sent %d notification(s)", i, st.Op, intent, len(st.Notes))})
+		}
+	case st.Op.K == "create" && st.Op.OTE != "":
+		// a one-time event is not session based: the property fixes no Location for it, only that it is accepted
+		if code/100 != 2 {
+			fs = append(fs, Finding{"event-contract", fmt.Sprintf("step %d %s (one-time event) answered %d", i, st.Op, code)})
 		}
 	case st.Op.K == "create":
 		want := "http://127.0.0.1:8000" + ccBase + "/chargingdata/"
@@ -190,6 +201,13 @@ func c12Alphabet(tier string) func(raw json.RawMessage, depth int) []Op {
 			if created[u] > 0 {
 				ops = append(ops, Op{K: "recharge", U: u, RG: 1, Amt: 100})
 			}
+			if u == 0 && depth >= 1 && in.Events < 1 {
+				// a one-time event of the subscriber: opens no session and must leave the open ones usable
+				ev := mkCreate(u, "smf-ev")
+				ev.OTE, ev.Seq, ev.Notify = "IEC", seq, notify(u)
+				ev.MUs = []MU{{RG: 1, Req: -1, Conts: []Cont{{Vol: 5, Up: 2, Down: 3, Seq: int32(3000 + depth), Offline: true}}}}
+				ops = append(ops, ev)
+			}
 		}
 		var liveOf [2]int
 		liveOf[0], liveOf[1] = -1, -1
@@ -245,6 +263,16 @@ func init() {
 		sp := BFSSpec{Name: "api-2ue", Check: "C12", Oracle: "C12", Cfg: WorldCfg{Accounts: []Account{{supiA, 1, "1000", "2"}, {supiB, 1, "150", "1"}}},
 			Supis: []string{supiA, supiB}, MaxDepth: depth, Alphabet: c12Alphabet(rep.Tier)}
 		RunBFS(pool, sp, rep, &st)
+		// consumers answering the notification with 400 / 404 / 500 / 200 without body: still exactly one notification
+		for _, host := range []string{"smf-400", "smf-404", "smf-500", "smf-200"} {
+			cr := mkCreate(0, "smf1")
+			cr.Notify, cr.Seq = "http://"+host+".example/notify", 3
+			sp2 := BFSSpec{Name: "notify-answered-by-" + host, Check: "C12", Oracle: "C12", Cfg: sp.Cfg, Supis: sp.Supis, Prefix: []Op{cr}, MaxDepth: 2,
+				Alphabet: func(raw json.RawMessage, d int) []Op {
+					return []Op{{K: "recharge", U: 0, RG: 1, Amt: 100}, {K: "update", S: 0, MUs: []MU{{RG: 1, Req: 100, Conts: []Cont{{Vol: 0, Seq: int32(2000 + d)}}}}, Seq: int32(20 + d)}}
+				}}
+			RunBFS(pool, sp2, rep, &st)
+		}
 		rep.Cov["states"] = st.States
 		rep.Cov["transitions"] = st.Transitions
 		rep.Cov["traces_validated_against_impl"] = st.Transitions
